@@ -24,6 +24,10 @@ type refTable struct {
 	// siteOps[i]: how many operations of the reference passes executed yield site i at
 	// least once (site rarity: what the preemption sweep prefers)
 	siteOps []uint32
+	// siteList[i]: up to 64 operations (indices into pool.ops) that execute site i;
+	// rareSites: the sites executed by 2..64 operations (contention mode "rare-site")
+	siteList  [][]int32
+	rareSites []int32
 }
 
 // per-process site statistics of the solo executions
@@ -31,7 +35,11 @@ var (
 	siteOpCount []uint32
 	siteEpoch   []uint32
 	soloEpoch   uint32
+	siteOpList  [][]int32
+	soloOpIdx   int32 = -1
 )
+
+const siteListCap = 64
 
 func (t *refTable) get(k opKey) (uint64, bool) {
 	i, ok := pool.opIdx[k]
@@ -72,6 +80,7 @@ func soloOp(k opKey, wantText bool) (opResult, int64) {
 	if siteOpCount == nil {
 		siteOpCount = make([]uint32, rt.NumSites+1)
 		siteEpoch = make([]uint32, rt.NumSites+1)
+		siteOpList = make([][]int32, rt.NumSites+1)
 	}
 	soloEpoch++
 	c := &sim{countOnly: true, countSites: true}
@@ -108,7 +117,9 @@ func computeSlice(i, n int, reverse bool) map[int]refEntry {
 		}
 	}
 	for _, j := range idxs {
+		soloOpIdx = int32(j)
 		r, st := soloOp(pool.ops[j], false)
+		soloOpIdx = -1
 		out[j] = refEntry{hash: r.hash, steps: st, have: true}
 	}
 	return out
@@ -140,6 +151,17 @@ func writeRefPart(path string, part map[int]refEntry, slice, of int, reverse boo
 	buf = binary.LittleEndian.AppendUint32(buf, uint32(len(siteOpCount)))
 	for _, c := range siteOpCount {
 		buf = binary.LittleEndian.AppendUint32(buf, c)
+	}
+	// appendix 2: per site, up to 64 operations that execute it
+	for i := range siteOpCount {
+		var l []int32
+		if i < len(siteOpList) {
+			l = siteOpList[i]
+		}
+		buf = binary.LittleEndian.AppendUint32(buf, uint32(len(l)))
+		for _, x := range l {
+			buf = binary.LittleEndian.AppendUint32(buf, uint32(x))
+		}
 	}
 	return os.WriteFile(path, buf, 0o644)
 }
@@ -182,6 +204,20 @@ func loadRefs(paths []string) (*refTable, []refConflict, error) {
 			for i := 0; i < ns && i < len(t.siteOps) && ap+8+4*i <= len(b); i++ {
 				t.siteOps[i] += binary.LittleEndian.Uint32(b[ap+4+4*i:])
 			}
+			if t.siteList == nil {
+				t.siteList = make([][]int32, ns)
+			}
+			o := ap + 4 + 4*ns
+			for i := 0; i < ns && o+4 <= len(b); i++ {
+				n := int(binary.LittleEndian.Uint32(b[o:]))
+				o += 4
+				for k := 0; k < n && o+4 <= len(b); k++ {
+					if i < len(t.siteList) && len(t.siteList[i]) < siteListCap && me.rev == false {
+						t.siteList[i] = append(t.siteList[i], int32(binary.LittleEndian.Uint32(b[o:])))
+					}
+					o += 4
+				}
+			}
 		}
 		for o := refHdr; o+20 <= refHdr+nrec*20; o += 20 {
 			j := int(binary.LittleEndian.Uint32(b[o:]))
@@ -196,6 +232,11 @@ func loadRefs(paths []string) (*refTable, []refConflict, error) {
 			}
 			t.e[j] = e
 			from[j] = me
+		}
+	}
+	for i, l := range t.siteList {
+		if len(l) >= 2 && i < len(t.siteOps) && t.siteOps[i] <= 2*siteListCap {
+			t.rareSites = append(t.rareSites, int32(i))
 		}
 	}
 	return t, conflicts, nil
